@@ -121,18 +121,12 @@ func (a *Analysis) snap(site *Site, st *State, recv *Term, args []*Term, val, id
 // stableLoc: writes of per-height-stable locations inside the epoch writer on a
 // view change (view != 0) re-derive the same value (A1) and are not kills.
 func (a *Analysis) stableLoc(w *Walker, loc string, st *State) bool {
-	if a.epochWriter == nil || w.Fn != a.epochWriter {
-		return false
-	}
-	switch loc {
-	case "ctx.MyIndex", "ctx.Priv", "ctx.Pub":
-	default:
-		return false
-	}
-	p := mkTerm(KParam, a.epochViewParm.Name())
-	p.Unsigned = true
-	v, ok := st.F.value(mkAtom("eq", p, constTerm("0")))
-	return ok && !v
+	return false
+}
+
+// isStableLoc: per-height stable locations (A1): re-derived from the unchanged validator list on a view change.
+func isStableLoc(loc string) bool {
+	return loc == "ctx.MyIndex" || loc == "ctx.Priv" || loc == "ctx.Pub"
 }
 
 // ---- purity and read sets (syntactic, transitive) ----
@@ -926,4 +920,65 @@ func (a *Analysis) resolveEpochWriter() {
 			return true
 		})
 	}
+	// the epoch writer may be split into private single-caller helpers: climb to the outermost function of that cluster
+	// which still receives the view as a parameter
+	for a.epochWriter != nil && a.inlinable(a.epochWriter) {
+		w := a.epochWriter
+		pidx := -1
+		for i, p := range w.Params {
+			if p == a.epochViewParm {
+				pidx = i
+			}
+		}
+		var caller *FuncInfo
+		var cparam *types.Var
+		for _, fn := range a.Prog.dbftFuncs() {
+			info := fn.Pkg.TypesInfo
+			ast.Inspect(fn.Decl.Body, func(n ast.Node) bool {
+				call, ok := n.(*ast.CallExpr)
+				if !ok {
+					return true
+				}
+				if f, ok := typeutil.Callee(info, call).(*types.Func); ok && a.Prog.Funcs[f.Origin()] == w && pidx >= 0 && pidx < len(call.Args) {
+					if id, ok := ast.Unparen(call.Args[pidx]).(*ast.Ident); ok {
+						if v, ok := info.Uses[id].(*types.Var); ok {
+							for _, p := range fn.Params {
+								if p == v {
+									caller, cparam = fn, v
+								}
+							}
+						}
+					}
+				}
+				return true
+			})
+		}
+		if caller == nil || caller.Recv != w.Recv {
+			break
+		}
+		a.epochWriter, a.epochViewParm = caller, cparam
+	}
+}
+
+// cluster: root plus the private single-caller helpers reachable from it (what an "extract function" refactoring
+// carves out of root).
+func (a *Analysis) cluster(root *FuncInfo) map[*FuncInfo]bool {
+	out := map[*FuncInfo]bool{root: true}
+	var visit func(f *FuncInfo)
+	visit = func(f *FuncInfo) {
+		info := f.Pkg.TypesInfo
+		ast.Inspect(f.Decl.Body, func(n ast.Node) bool {
+			if call, ok := n.(*ast.CallExpr); ok {
+				if fo, ok := typeutil.Callee(info, call).(*types.Func); ok {
+					if t := a.Prog.Funcs[fo.Origin()]; t != nil && !out[t] && a.inlinable(t) {
+						out[t] = true
+						visit(t)
+					}
+				}
+			}
+			return true
+		})
+	}
+	visit(root)
+	return out
 }
